@@ -116,6 +116,30 @@ fn all_names(max_len: usize) -> Vec<String> {
     out
 }
 
+/// names as sequences of path components: every sequence of 1..=max components over {.., ., a, empty}
+/// joined by '/', which reaches deep traversals (`a/../../../a`, `/../../a`) that the character-level
+/// enumeration is too short for
+fn component_names(max: usize) -> Vec<String> {
+    let comps = ["..", ".", "a", ""];
+    let mut out: Vec<String> = Vec::new();
+    let mut frontier: Vec<Vec<&str>> = vec![vec![]];
+    for _ in 0..max {
+        let mut next = Vec::new();
+        for f in &frontier {
+            for c in comps {
+                let mut v = f.clone();
+                v.push(c);
+                next.push(v);
+            }
+        }
+        out.extend(next.iter().map(|v| v.join("/")));
+        frontier = next;
+    }
+    out.sort();
+    out.dedup();
+    out
+}
+
 fn significant(name: &str, resolved: Option<&str>) -> bool {
     resolved.map_or(true, |r| r != name) || name.contains('/') || name.contains('\\') || name.contains("..")
 }
@@ -459,6 +483,24 @@ pub fn check(ctx: &Ctx) -> Vec<PartReport> {
             mode: Mode::Enumerate { cases, complete: true },
             prop: Box::new(name_prop),
             require: vec![("saved", 10), ("save-refused", 2), ("has-rejected-name", 2)],
+        },
+    ));
+    let comp_max = ctx.tier.pick(6, 7);
+    let cnames = component_names(comp_max);
+    let mut ccases = Vec::new();
+    for digest_prefix in [false, true] {
+        for chunk in cnames.chunks(96) {
+            ccases.push(NameCase { names: chunk.to_vec(), digest_prefix });
+        }
+    }
+    out.push(run_part(
+        ctx,
+        PartSpec {
+            name: "names-components",
+            rule: "EXHAUSTIVE: every sequence of 1..=6 (quick) / 1..=7 (thorough) path components over {'..', '.', 'a', empty} joined by '/' as a target name (deep traversals such as 'a/../../../a' and '/../../a' that are longer than the character-level enumeration reaches), both file-name prefix modes, 96 names per forged repository. Same oracle. Non-trivial as above; distinct = batch",
+            mode: Mode::Enumerate { cases: ccases, complete: true },
+            prop: Box::new(name_prop),
+            require: vec![("saved", 10), ("path-significant-name", 10)],
         },
     ));
     let n = ctx.cases(150, 1500);
